@@ -85,7 +85,8 @@ def run(cx):
         s = vg.gen_schema_x(rng, i, max_depth=rng.choice([2, 3, 3]))
         schemas.append(s)
         r = cx.sub_rng("inst%d" % i)
-        g = vg.XTreeGen(r, s, density=r.choice([0.4, 0.6, 0.8]), max_inst=r.choice([3, 4]))
+        # mostly small sibling lists; every eighth schema gets wide ones (sibling count far above the schema depth)
+        g = vg.XTreeGen(r, s, density=r.choice([0.4, 0.6, 0.8]), max_inst=(14 if i % 8 == 5 else r.choice([3, 4])))
         mu = vg.Mutator(r, s, g)
         for _ in range(per):
             t = g.tree()
